@@ -125,13 +125,20 @@ def readable_names(repo: Repo, R):
                     # helper must quote strings: `if isinstance(val, str): return repr(val)`
                     a = r.node.args.args[0].arg
                     q = any(isinstance(n, ast.If) and ast.unparse(n.test) == f"isinstance({a}, str)" and isinstance(n.body[-1], ast.Return) and ast.unparse(n.body[-1].value) in (f"repr({a})", f"json.dumps({a})") for n in au.walk_no_nested(r.node))
-                    if q:
-                        safe, how = True, f"values rendered by `{r.name}`, which quotes and escapes strings"
+                    # every other value must be rendered without loss: str()/repr() of the value itself, no format spec
+                    rets = [ast.unparse(n.value) for n in au.walk_no_nested(r.node) if isinstance(n, ast.Return) and n.value is not None]
+                    lossy = [x for x in rets if x not in (f"repr({a})", f"str({a})", f"json.dumps({a})")]
+                    if q and lossy:
+                        how = f"values rendered by `{r.name}`, which renders some values lossily: `{lossy[0]}`"
+                    elif q:
+                        safe, how = True, f"values rendered by `{r.name}`, which quotes and escapes strings and renders everything else with str()"
                     else:
                         how = f"values rendered by `{r.name}`, which does not quote strings"
+    if rendered is not None and rendered.format_spec is not None:
+        safe, how = False, f"values are rendered with a format specification `{ast.unparse(rendered.format_spec)}` (lossy)"
     R.check(safe or not has_str, rule, key_of(fi, "string-values"), fi.at(joins[0]),
             f"readable branch accepts {scal}; {how}",
-            why="(a='x b=y', b='z') and (a='x', b='y b=z') — or None and 'None' — give one name for two different modules, which the exporter then refuses")
+            why="(a='x b=y', b='z') and (a='x', b='y b=z') — or None and 'None', or two floats that agree in their first digits — give one name for two different modules, which the exporter then refuses")
     lim = None
     for n in au.walk_no_nested(fi.node):
         if isinstance(n, ast.If) and au.cmp_norm(n.test) and "len(name)" in ast.unparse(n.test) and ast.unparse(n.body[-1]) == "return name":
